@@ -51,8 +51,11 @@ class ProgSet:
 
     SHARD = 1600             # cases per crate: rustc's front end is single-threaded per crate
 
-    def __init__(self, run, name, prelude=""):
+    def __init__(self, run, name, prelude="", debug_assertions=True):
         self.run, self.name, self.prelude = run, name, prelude
+        # False: the caller's crate is built like a release build (no debug assertions / overflow checks): macros expand
+        # in the caller's crate, so a `debug_assert!` inside an expansion disappears there
+        self.debug_assertions = debug_assertions
         self.cases = []          # (body, exp_str, rec)
         self.opts = {}
         self.tdir = None         # own target directory (shards)
@@ -68,8 +71,8 @@ class ProgSet:
         with open(os.path.join(d, "Cargo.toml"), "w") as f:
             f.write('[package]\nname = "kprog"\nversion = "0.1.0"\nedition = "2021"\n\n[workspace]\n\n'
                     '[dependencies]\nkonst = { path = "%s/konst", default-features = false, features = %s }\n\n'
-                    '[profile.dev]\ndebug = false\nopt-level = 0\ncodegen-units = 16\nincremental = false\n'
-                    % (core.REPO, FEATURES))
+                    '[profile.dev]\ndebug = false\nopt-level = 0\ncodegen-units = 16\nincremental = false\n%s'
+                    % (core.REPO, FEATURES, "" if self.debug_assertions else "debug-assertions = false\noverflow-checks = false\n"))
         os.makedirs(os.path.join(d, ".cargo"), exist_ok=True)
         with open(os.path.join(d, ".cargo", "config.toml"), "w") as f:
             f.write('[net]\noffline = true\n[build]\ntarget-dir = "%s"\n' % (self.tdir or target_dir()))
@@ -99,13 +102,15 @@ class ProgSet:
     def execute(self, timeout=1800):
         """Compile + run; returns number of cases executed. Mismatches / compile failures become violations.
         Large sets are split into crates of SHARD cases compiled in parallel (each with its own target directory)."""
-        if len(self.cases) > self.SHARD and self.tdir is None:
+        if not self.debug_assertions and self.tdir is None:
+            self.tdir = os.path.join(WORK, "target-prog-nodebug")
+        if len(self.cases) > self.SHARD and self.tdir in (None, os.path.join(WORK, "target-prog-nodebug")):
             shards = []
             for k in range(0, len(self.cases), self.SHARD):
-                sh = ProgSet(self.run, "%s-s%d" % (self.name, k // self.SHARD), self.prelude)
+                sh = ProgSet(self.run, "%s-s%d" % (self.name, k // self.SHARD), self.prelude, self.debug_assertions)
                 sh.cases = self.cases[k:k + self.SHARD]
                 sh.opts = {i - k: self.opts[i] for i in range(k, min(k + self.SHARD, len(self.cases))) if i in self.opts}
-                sh.tdir = os.path.join(WORK, "target-prog-shard-%d" % (k // self.SHARD % 4))
+                sh.tdir = os.path.join(WORK, "target-prog-shard-%d%s" % (k // self.SHARD % 4, "" if self.debug_assertions else "-nodebug"))
                 shards.append(sh)
             t0 = time.time()
             # four lanes; shards of one lane share a target directory (konst is built once per lane)
